@@ -168,6 +168,9 @@ def core_lines(tier):
     out.append(line("bufF", "buf0", until=1.5, setup=1.5))      # ... and exactly at its end
     out.append(line("bufF", "buf0", iat=[0, 1], n=4))
     out.append(line("buf0", "bufF", iat=[0, 2], pd=[1, 2], n=3, cap1=2))
+    # a fine, non-dyadic time grid (four decimals): nothing in the library may round or truncate simulated time
+    out.append(line("bufF", "buf0", iat=[0.1234, 0.7071], pd=[0.3337, 0.25], until=5.4321, n=5))
+    out.append(line("buf0", "bufF", iat=[0.7071, 0.1234], pd=[0.25, 0.3337], until=4.3219, n=5, sb=False, mb=False))
     # constant-number inter-arrival times (the commonest way to configure a source), including the default 0 of a blocking source
     for iat, sb, until in ((1, True, 8), (0.5, True, 6), (0.7, False, 6), (0, True, 6), (2, False, 9)):
         c = line("bufF", "buf0", sb=sb, until=until)
@@ -213,6 +216,22 @@ def diamonds(tier):
         c = diamond(until=20, n=3, eout="buf")
         c["edges"] = [EDGE_KINDS[ek](e["id"], e["src"], e["dst"], 2) if e["id"] in ("I1", "O2") else e for e in c["edges"]]
         c["tag"] = c["tag"][:-1] + ",I1,O2=%s)" % ek
+        out.append(c)
+    # a slow consumer behind a conveyor that is its second in-edge: several items wait at the belt exit when a granted
+    # retrieval on the belt is withdrawn
+    for ek in ("cconvA", "sconvA"):
+        c = diamond(until=26, n=6, pd=[2, 3])
+        c["edges"] = [dict(EDGE_KINDS[ek](e["id"], e["src"], e["dst"], 2), **({"clen": 3} if ek == "cconvA" else {"cap": 3})) if e["id"] == "I2" else e
+                      for e in c["edges"]]
+        c["nodes"][1] = src("S2", n=6, iat=[1, 2])
+        c["tag"] = c["tag"][:-1] + ",I2=%s,slow M)" % ek
+        out.append(c)
+        # ... and with arrivals that coincide only now and then (periods 3 and 2) on a four-slot belt
+        c = diamond(until=32, n=8, pd=[2, 1])
+        c["edges"] = [dict(EDGE_KINDS[ek](e["id"], e["src"], e["dst"], 2), **({"clen": 4} if ek == "cconvA" else {"cap": 4})) if e["id"] == "I2" else e
+                      for e in c["edges"]]
+        c["nodes"][0] = src("S1", n=8, iat=[3, 1]); c["nodes"][1] = src("S2", n=12, iat=[2, 1])
+        c["tag"] = c["tag"][:-1] + ",I2=%s,periods 3 and 2)" % ek
         out.append(c)
     for ek in ("fleet", "bufF", "bufL"):
         out.append(diamond(ein=ek, until=20, n=3))
@@ -270,6 +289,17 @@ def comb_fan(out_pol="ROUND_ROBIN", blocking=True, n_out=2, until=20, slow=True,
             edges.append(buf("O%d" % j, "C", "K%d" % j, cap=1))
     return {"nodes": nodes, "edges": edges, "until": until, "family": "comb_fan",
             "tag": "comb_fan(%s,b%d,out%d,slow%d)" % (_p(out_pol), blocking, n_out, slow)}
+
+
+def repack(n_pal=3, until=24):
+    """pack, unpack, pack again: the second combiner loads the pallets the splitter emptied with the items they carried before"""
+    nodes = [src("SP", n=n_pal, flow="pallet", iat=[1, 2]), src("SI", n=2 * n_pal, iat=[1, 0.5]),
+             {"t": "combiner", "id": "C1", "recipe": [1, 2], "pd": ("call", [1, 0]), "blocking": True},
+             {"t": "splitter", "id": "X", "pd": ("call", [1, 0]), "blocking": True, "out_pol": ("cycle", [1, 2, 0])},
+             {"t": "combiner", "id": "C2", "recipe": [1, 1, 1], "pd": ("call", [1, 0]), "blocking": True}, sink("K")]
+    edges = [buf("P", "SP", "C1", cap=2), buf("I", "SI", "C1", cap=2), buf("CX", "C1", "X", cap=1),
+             buf("XP", "X", "C2", cap=2), buf("XA", "X", "C2", cap=2), buf("XB", "X", "C2", cap=2), buf("O", "C2", "K", cap=1)]
+    return {"nodes": nodes, "edges": edges, "until": until, "family": "repack", "tag": "repack(n%d)" % n_pal}
 
 
 def comb_split_slow(recipe=(1, 2), out_pol="ROUND_ROBIN", sblocking=False, blocking=True, until=20):
@@ -364,6 +394,17 @@ def combiners(tier):
             out.append(comb_fan(pol, b))
     out.append(comb_fan("FIRST_AVAILABLE", True, n_out=3))
     out.append(comb_fan("ROUND_ROBIN", True, n_out=3, slow=False))
+    out.append(repack())
+    # several ingredients from one conveyor / fleet in-edge: two retrieval reservations granted on that edge before the first get
+    for ek in ("sconvA", "cconvA", "fleet", "bufF"):
+        c = comb_split((1, 2), pal_iat=[8, 3], item_iat=[1, 0.5], n_pal=3, n_item=7, until=30)
+        c["edges"] = [EDGE_KINDS[ek](e["id"], e["src"], e["dst"], 3) if e["id"] == "I1" else e for e in c["edges"]]
+        if ek == "sconvA":
+            for e in c["edges"]:
+                if e["id"] == "I1":
+                    e["cap"] = 4
+        c["tag"] = c["tag"][:-1] + ",I1=%s,pallets scarce)" % ek
+        out.append(c)
     out.append(comb_series())
     out.append(comb_series((1, 2), (1, 1)))
     out.append(comb_series(order="reversed"))
@@ -373,6 +414,17 @@ def combiners(tier):
 
 def conveyor_lines(tier):
     out = []
+    # two conveyors in a row, the second one slower than the first: its own entry spacing must hold for items that already travelled
+    for e1, e2 in (("sconvA", "sconvA"), ("cconvA", "sconvA"), ("sconvA", "cconvA"), ("sconvN", "sconvN")):
+        c = line(e1, e2, n=5, until=18, pd=[0.25, 0])
+        if e1.startswith("sconv"):
+            c["edges"][0]["delay"] = 0.5
+        if e2.startswith("sconv"):
+            c["edges"][1]["delay"] = 2; c["edges"][1]["cap"] = 3
+        else:
+            c["edges"][1]["clen"] = 6; c["edges"][1]["ilen"] = 2; c["nodes"][0]["ilen"] = 2   # items as long as the belt's item length
+        c["tag"] = c["tag"][:-1] + ",slow second belt)"
+        out.append(c)
     for e in ("cconvA", "cconvN", "sconvA", "sconvN"):
         out.append(line(e, "buf0"))
         out.append(line("buf0", e))
